@@ -54,6 +54,16 @@ theorem pushReason_ok (l : List CloseReason) (r : CloseReason) (h : l.Nodup) :
     have : l.length < 5 := by omega
     simp [hnot, this, hnd]
 
+theorem pushReason_mem (l : List CloseReason) (r : CloseReason) (h : (pushReason l r).2 = .ok ()) :
+    r ∈ (pushReason l r).1 := by
+  unfold pushReason at h ⊢
+  by_cases hin : l.contains r = true
+  · simp only [hin, if_true]; simpa using hin
+  · simp only [hin] at h ⊢
+    by_cases hl : l.length < 5
+    · simp [hl]
+    · simp [hl] at h
+
 -- ---------------------------------------------------------------- request analysis facts
 theorem setHeader_ok (r : AReq) (h : Hdr) (hl : r.added.length < MAX_EXTRA) :
     r.setHeader h = ({ r with added := r.added ++ [h] }, .ok ()) := by
